@@ -74,7 +74,7 @@ static const char* k_kind[] = { "random", "sin", "empty" };
 static const char* k_type[] = { "u8", "u16", "i8", "i16", "f32", "u10", "u12", "u14" };
 
 static struct { unsigned long cases, sets, rejected_sets, starts, frames, bytes, binned_cases, clamped, maxshape, reconfigs,
-                runs, triggers, trigger_runs, pending_at_stop, restarts_checked, timebound_checked, failed_frame_calls, ids_ahead_of_pacing; } C;
+                runs, triggers, trigger_runs, pending_at_stop, restarts_checked, restarts_without_set, timebound_checked, failed_frame_calls, ids_ahead_of_pacing; } C;
 static vset g_sigs;
 
 // ---- C17 ------------------------------------------------------------------------------------------------
@@ -316,16 +316,24 @@ static void run_stream_case(uint64_t seed, unsigned long icase)
     int nruns = (int)vrng_range(&g, 3, 6);
     uint64_t sig = vhash_add(vhash_init(), (uint64_t)kind);
     int prev_trig = 0;
+    struct CameraProperties p; memset(&p, 0, sizeof p);
+    int trig = 0; float exp_us = 0;
     for (int run = 0; run < nruns && !g_case_violated; ++run) {
-        struct CameraProperties p; memset(&p, 0, sizeof p);
+        int extra_sets = 0;
+        if (run > 0 && vrng_chance(&g, 1, 4)) {
+            // started again as it is, without configuring in between (what acquire_start after acquire_stop does)
+            vbuf_printf(&g_log, "(no set) start ");
+            extra_sets = 3; ++C.restarts_without_set;
+        } else {
+        memset(&p, 0, sizeof p);
         p.binning = 1; p.pixel_type = SampleType_u8;
         p.shape.x = (uint32_t)vrng_range(&g, 1, 48); p.shape.y = (uint32_t)vrng_range(&g, 1, 32);
-        int trig = vrng_chance(&g, 3, 5);
+        trig = vrng_chance(&g, 3, 5);
         p.input_triggers.frame_start.enable = (uint8_t)trig;
-        float exp_us = vrng_chance(&g, 1, 4) ? (float)vrng_range(&g, 2000, 4000) : (float)vrng_range(&g, 50, 500);
+        exp_us = vrng_chance(&g, 1, 4) ? (float)vrng_range(&g, 2000, 4000) : (float)vrng_range(&g, 50, 500);
         p.exposure_time_us = exp_us;
         // reconfiguration between runs, including enable -> disable -> enable while stopped
-        int extra_sets = (int)vrng_below(&g, 3);
+        extra_sets = (int)vrng_below(&g, 3);
         for (int e = 0; e < extra_sets; ++e) {
             struct CameraProperties q = p; q.input_triggers.frame_start.enable = (uint8_t)vrng_below(&g, 2);
             vbuf_printf(&g_log, "set(trig=%u) ", q.input_triggers.frame_start.enable);
@@ -333,6 +341,7 @@ static void run_stream_case(uint64_t seed, unsigned long icase)
         }
         vbuf_printf(&g_log, "set(trig=%d,exp=%gus) start ", trig, (double)exp_us);
         if (camera_set(cam, &p) != Device_Ok) { violation("set-failed", "camera_set failed"); break; }
+        }
         struct run_ctx r; memset(&r, 0, sizeof r);
         r.cam = cam; r.nbytes = (size_t)p.shape.x * p.shape.y; r.trigger_enabled = trig; r.seed = vmix(seed, icase * 16 + (uint64_t)run);
         r.exposure_ms = exp_us * 1e-3f;
@@ -430,9 +439,9 @@ int main(int argc, char** argv)
     }
     printf("S {\"mode\":\"%s\",\"cases\":%lu,\"violations\":%lu,\"sets\":%lu,\"rejected_sets\":%lu,\"reconfigurations\":%lu,\"starts\":%lu,"
            "\"frames\":%lu,\"frame_bytes\":%lu,\"cases_with_binning\":%lu,\"clamped_requests\":%lu,\"max_shape_requests\":%lu,\"runs\":%lu,"
-           "\"triggers\":%lu,\"trigger_runs\":%lu,\"stops_with_pending_get_frame\":%lu,\"restart_checks\":%lu,\"timebound_checks\":%lu,\"failed_frame_calls\":%lu,\"ids_ahead_of_pacing_info\":%lu,\"distinct\":%zu}\n",
+           "\"triggers\":%lu,\"trigger_runs\":%lu,\"stops_with_pending_get_frame\":%lu,\"restart_checks\":%lu,\"restarts_without_set\":%lu,\"timebound_checks\":%lu,\"failed_frame_calls\":%lu,\"ids_ahead_of_pacing_info\":%lu,\"distinct\":%zu}\n",
            mode, C.cases, g_nviol, C.sets, C.rejected_sets, C.reconfigs, C.starts, C.frames, C.bytes, C.binned_cases, C.clamped, C.maxshape,
-           C.runs, C.triggers, C.trigger_runs, C.pending_at_stop, C.restarts_checked, C.timebound_checked, C.failed_frame_calls, C.ids_ahead_of_pacing, g_sigs.n);
+           C.runs, C.triggers, C.trigger_runs, C.pending_at_stop, C.restarts_checked, C.restarts_without_set, C.timebound_checked, C.failed_frame_calls, C.ids_ahead_of_pacing, g_sigs.n);
     const char* hp = getenv("VERIF_HASH_OUT");
     if (hp) vset_dump(&g_sigs, hp);
     fflush(stdout);
